@@ -879,6 +879,11 @@ class PolyhedralTermList(TermList):  # noqa: WPS338
         if maximize:
             polarity = -1
         res = linprog(c=polarity * obj_mat[0], A_ub=self_mat, b_ub=self_cons, bounds=(None, None))
+        if res["status"] not in {0, 3}:
+            # the solver's presolve may report a feasible unbounded problem as infeasible
+            res = linprog(
+                c=polarity * obj_mat[0], A_ub=self_mat, b_ub=self_cons, bounds=(None, None), options={"presolve": False}
+            )
         # Linprog's status values
         # 0 : Optimization proceeding nominally.
         # 1 : Iteration limit reached.
